@@ -804,6 +804,32 @@ def guarded_lookups(module):
     return out
 
 
+def _handler_replaced_by_test(fn, row, pinned_lookups):
+    """A handler of the pinned function is gone, and what it caught is now excluded by an explicit test instead (look before you leap):
+    `try: x = C[K] / except KeyError: A`  ->  `if K not in C: A`;  `try: getattr(o, a) / except AttributeError:`  ->  `getattr(o, a, default)`;
+    `try: X[i] / except IndexError:`  ->  a test on `len(X)`."""
+    types, _actions = row
+    compares = [n for n in walk_local(fn) if isinstance(n, ast.Compare) and len(n.ops) == 1]
+    if types == ['KeyError'] and pinned_lookups:
+        def tested(text):
+            node = ast.parse(text, mode='eval').body
+            if not isinstance(node, ast.Subscript):
+                return False
+            return any(isinstance(c.ops[0], (ast.In, ast.NotIn)) and u(c.left) == u(node.slice) and u(c.comparators[0]) == u(node.value) for c in compares)
+        return all(tested(t) for t in pinned_lookups)
+    if types == ['AttributeError']:
+        return any(isinstance(c, ast.Call) and call_name(c) == 'getattr' and len(c.args) == 3 for c in walk_local(fn))
+    if types == ['IndexError'] and pinned_lookups:
+        def sized(text):
+            node = ast.parse(text, mode='eval').body
+            if not isinstance(node, ast.Subscript):
+                return False
+            want = 'len({})'.format(u(node.value))
+            return any(want in (u(c.left), u(c.comparators[0])) for c in compares)
+        return all(sized(t) for t in pinned_lookups)
+    return False
+
+
 def handlers_unchanged(ck, rels, rule='EXC-handlers'):
     import json
     import os
@@ -822,6 +848,8 @@ def handlers_unchanged(ck, rels, rule='EXC-handlers'):
             n += max(len(a), len(b), 1)
             extra = [r for r in a if r not in b]
             missing = [r for r in b if r not in a]
+            if missing and not extra and qual in module.functions:
+                missing = [r for r in missing if not _handler_replaced_by_test(module.functions[qual], r, ref.get('#lookups', {}).get(rel, {}).get(qual, []))]
             ck.ob(rule, module.loc(module.functions[qual]) if qual in module.functions else rel, not extra and not missing,
                   '{}: exception handlers as triaged ({} handler(s)){}{}'.format(
                       qual, len(b), '; new or widened: {}'.format(extra) if extra else '', '; removed or narrowed: {}'.format(missing) if missing else '') +
@@ -902,20 +930,51 @@ def no_identity_on_values(ck, rels, rule='IS-literal'):
 
 
 # ----------------------------------------------------------------------------------------------------------------------
+def subscript_stores(module):
+    """{qualname: [[target text, value text], ...]} of the plain assignments to an item (`d[k] = v`) of every function."""
+    out = {}
+    for qual, fn in module.functions.items():
+        rows = [[u(t), u(st.value)] for st in walk_local(fn) if isinstance(st, ast.Assign) for t in st.targets if isinstance(t, ast.Subscript)]
+        if rows:
+            out[qual] = sorted(rows)
+    return out
+
+
 def no_store_unless_present(ck, rels, rule='STORE-overwrite'):
-    """`d.setdefault(k, v)` as a statement stores v only when k is absent.  Where a clause says "records / sets / overrides", a value that is
-    already there must be replaced: the pinned tree has no such statement at all, so each new one is reported for triage."""
+    """`d.setdefault(k, v)` as a statement -- read by the rules as `d[k] = d.get(k, v)` -- stores v only when k is absent.  Where the pinned function
+    *assigned* that item (`d[k] = v`: whatever was there is replaced) and that assignment is gone, a keep-what-is-there store in its place is reported.
+    (`d[k] = d.get(k, v)` in the pinned tree was never an overwrite; setdefault is just another spelling of it.)"""
+    import json
+    import os
+    with open(os.path.join(os.path.dirname(os.path.dirname(os.path.abspath(__file__))), 'handlers.json')) as handle:
+        pinned_stores = json.load(handle).get('#stores', {})
     n = 0
     for rel in rels:
         module = ck.index.mod(rel)
+        now_stores = subscript_stores(module)
         for qual, fn in module.functions.items():
             for st in walk_local(fn):
+                keeps = None
                 if isinstance(st, ast.Expr) and isinstance(st.value, ast.Call) and call_attr(st.value) == 'setdefault' and len(st.value.args) == 2 \
                         and not _is_container(st.value.args[1]):
-                    n += 1
-                    ck.ob(rule, module.loc(st), False, '{}: `{}` keeps a value that is already stored under that key; an assignment would replace it'.format(qual, u(st)[:90]),
-                          key='{}|{}|{}|{}'.format(rule, rel, qual, u(st.value.func.value)[:40]))
-    ck.ob(rule, ','.join(rels)[:80], True, 'store-unless-present statements (`x.setdefault(k, v)` with a non-container v, result discarded): {} found'.format(n),
+                    keeps = (u(st.value.func.value), u(st.value.args[0]))
+                elif isinstance(st, ast.Assign) and len(st.targets) == 1 and isinstance(st.targets[0], ast.Subscript) and isinstance(st.value, ast.Call) \
+                        and call_attr(st.value) == 'get' and len(st.value.args) == 2 and isinstance(st.value.func, ast.Attribute) \
+                        and u(st.value.func.value) == u(st.targets[0].value) and u(st.value.args[0]) == u(st.targets[0].slice):
+                    keeps = (u(st.targets[0].value), u(st.targets[0].slice))
+                if keeps is None:
+                    continue
+                recv, key = keeps
+                target = '{}[{}]'.format(recv, key)
+                get_form = '{}.get({}'.format(recv, key)
+                was = [v for t, v in pinned_stores.get(rel, {}).get(qual, []) if t == target and not v.startswith(get_form)]
+                still = [v for t, v in now_stores.get(qual, []) if t == target and not v.startswith(get_form)]
+                if not was or len(still) >= len(was):
+                    continue
+                n += 1
+                ck.ob(rule, module.loc(st), False, '{}: `{}` keeps a value that is already stored under that key; the pinned function assigned `{} = {}` there'.format(
+                    qual, u(st)[:90], target, was[0][:60]), key='{}|{}|{}|{}'.format(rule, rel, qual, recv[:40]))
+    ck.ob(rule, ','.join(rels)[:80], True, 'keep-what-is-there stores (`x.setdefault(k, v)` / `x[k] = x.get(k, v)`) standing where the pinned function overwrote: {} found'.format(n),
           key=rule + '|ran|' + ','.join(rels)[:120])
 
 
